@@ -24,11 +24,12 @@ LEADTIMES = [0, 1, 1.5, 3, 6, 12, 23, 24, 25, 36, 47.5, 48, 72, 240]
 LOC_IDS = [0, 1, 2, 3, 5, 7, 10, 42, 100, 1000, 99999]
 
 
-def time_pool(boundary_heavy=True):
+def time_pool(boundary_heavy=True, half_hours=False):
     days = st.sampled_from(INTERESTING_DAYS).map(lambda d: model.date_to_unix(d) // 86400)
     anyday = st.integers(0, 47481)  # 1970-01-01 .. 2099-12-31
     day = st.one_of(days, days, anyday) if boundary_heavy else anyday
-    return st.tuples(day, st.sampled_from(HOURS)).map(lambda dh: dh[0] * 86400 + dh[1] * 3600)
+    hours = HOURS + ([0.5, 13.5, 22.25] if half_hours else [])
+    return st.tuples(day, st.sampled_from(hours)).map(lambda dh: int(dh[0] * 86400 + dh[1] * 3600))
 
 
 def val(lo=-40, hi=40):
@@ -95,7 +96,7 @@ MASK_MODES_NOALL = st.sampled_from(["dense", "dense", "dense", "none", "one", "s
 @st.composite
 def dataset(draw, max_inputs=4, min_inputs=1, clim="maybe", flavor="det", core_max=3, extra_max=2,
             allow_drop=True, allow_obsless=True, boundary_heavy=True, ordered_dims=False, max_members=4,
-            var_x=False, allow_all_missing=True):
+            var_x=False, allow_all_missing=True, half_hours=False):
     """flavor: 'det' (obs, fcst) | 'prob' (+cdf, quantiles, pit) | 'ens' (+ensemble) | 'full' (all) | 'mix' """
     if flavor == "mix":
         flavor = draw(st.sampled_from(["det", "det", "prob", "ens", "full"]))
@@ -107,7 +108,7 @@ def dataset(draw, max_inputs=4, min_inputs=1, clim="maybe", flavor="det", core_m
     nTe = draw(st.integers(0, extra_max))
     nLe = draw(st.integers(0, extra_max))
     nSe = draw(st.integers(0, extra_max))
-    times = draw(st.lists(time_pool(boundary_heavy), min_size=nTc + nTe, max_size=nTc + nTe, unique=True))
+    times = draw(st.lists(time_pool(boundary_heavy, half_hours), min_size=nTc + nTe, max_size=nTc + nTe, unique=True))
     leads = draw(st.lists(st.sampled_from(LEADTIMES), min_size=nLc + nLe, max_size=nLc + nLe, unique=True))
     ids = draw(st.lists(st.sampled_from(LOC_IDS), min_size=nSc + nSe, max_size=nSc + nSe, unique=True))
     if ordered_dims:
